@@ -113,12 +113,39 @@ def parse_info(out, root):
             m = INFO_LINE.match(ln)
             if m:
                 if m.group(3):
-                    res.append(["E", int(m.group(1)), m.group(3), m.group(4), m.group(5)])
+                    res.append(["E", int(m.group(1)), m.group(3), m.group(4), None if m.group(5) == "None" else m.group(5)])
                 else:
                     res.append(["G", int(m.group(1))])
             elif ln.endswith(":") and ln.strip():
                 res.append(["F", ln[:-1]])
     return res
+
+
+DH_ROOT = re.compile(r"^  calculated root hash  (\S+): (\S+) \(content\), (\S+) \(structure\)$")
+DH_DIR = re.compile(r"^  calculated directory hash for (.*)  (\S+): (\S+) \(content\), (\S+) \(structure\)$", re.S)
+
+
+def parse_dh(out):
+    res = []
+    for ln in out.split("\n"):
+        m = DH_ROOT.match(ln)
+        if m:
+            res.append(["", m.group(1), m.group(2), m.group(3)])
+            continue
+        m = DH_DIR.match(ln)
+        if m:
+            res.append([m.group(1), m.group(2), m.group(3), m.group(4)])
+    return res
+
+
+def _nearest(root, file):
+    d = os.path.dirname(os.path.join(root, file))
+    while True:
+        if os.path.exists(os.path.join(d, "ascmhl")):
+            return d
+        if os.path.dirname(d) == d:
+            return root
+        d = os.path.dirname(d)
 
 
 def apply_edit(root, st):
@@ -279,7 +306,9 @@ def run_impl(scn, scratch, keep=False):
         missing, mismatch, new = parse_output(out)
         o = {"op": st["op"], "outcome": list(outcome), "written": written, "missing": missing, "mismatch": mismatch, "new": new, "output": out, "_raw": raw, "_argv": argv}
         if st["op"] in ("info", "infosf"):
-            o["info"] = parse_info(out, root)
+            o["info"] = parse_info(out, os.path.join(root, st.get("root") or "") if st["op"] == "info" or st.get("root") is not None else _nearest(root, st["file"]))
+        if st["op"] == "verifydh":
+            o["dh"] = parse_dh(out)
         if st["op"] == "flatten":
             o["flat"] = _read_flat(st["dest_path"])
         obs.append(o)
@@ -304,7 +333,7 @@ def _read_flat(dest):
             if f.endswith(".mhl"):
                 man = impl.read_manifest(os.path.join(d, f))
                 res.append({
-                    "file": f, "process": man["process"],
+                    "file": f, "process": man["process"], "patterns": man["patterns"],
                     "records": [{"path": r["path"], "dir": r["is_dir"], "entries": [[x[0], x[1], x[2]] for x in r["entries"]]} for r in man["records"]],
                 })
     return res
@@ -405,6 +434,15 @@ def step_line(st):
         return " ".join(["verify", root] + (["1", ptok(st["sf"])] if st.get("sf") is not None else ["0"]) + lst(st.get("i") or [], core.tok))
     if op == "diff":
         return " ".join(["diff", root] + lst(st.get("i") or [], core.tok))
+    if op == "verifydh":
+        return " ".join(["verifydh", root] + (["1", st["fmt"]] if st.get("fmt") else ["0"]) + ["1" if st.get("co") else "0", "1" if st.get("ro") else "0"]
+                        + lst(st.get("i") or [], core.tok))
+    if op == "info":
+        return f"info {root}"
+    if op == "infosf":
+        return f"infosf {ptok(st['file'])} " + (f"1 {root}" if st.get("root") is not None else "0")
+    if op == "flatten":
+        return f"flatten {root}"
     if op in ("set", "add"):
         return f"set {ptok(st['path'])} {st['data'] or '-'}"
     if op == "mkdir":
@@ -466,6 +504,7 @@ def decode_obs(js):
         "mismatch": [unptok(p) for p in o["mismatch"]],
         "new": [unptok(p) for p in o["new"]],
         "ops": [[k, unptok(p)] for k, p in o["ops"]],
+        "dh": [[unptok(x[0]), x[1], core.untok(x[2]), core.untok(x[3])] for x in o.get("dh", [])],
         "info": [[x[0]] + [unptok(x[1]) if x[0] in ("H", "F") else x[1]] + ([x[2], core.untok(x[3]), x[4]] if x[0] == "E" else []) for x in o["info"]],
     }
 
@@ -492,7 +531,8 @@ def run_model(scn, model):
     return out
 
 
-def comparable(o, op):
+def comparable(o, op, st=None):
+    st = st or {}
     """projects an implementation / model observation of a command onto what both sides state"""
     if "edit" in o:
         return {"edit": o["edit"]}
@@ -504,6 +544,17 @@ def comparable(o, op):
         c["new"] = sorted(o["new"])
     if op in ("info", "infosf"):
         c["info"] = o.get("info")
+    if op == "verifydh" and st.get("co"):
+        c["dh"] = sorted(x for x in o.get("dh", []) if not st.get("ro") or x[0] == "")
+    if op == "flatten":
+        c.pop("written")
+        c.pop("missing")
+        if "flat" in o:
+            c["flat"] = [{"process": f["process"], "records": f["records"], "patterns": f.get("patterns")} for f in o["flat"]]
+        else:
+            c["flat"] = [{"process": g["process"], "patterns": g["patterns"],
+                          "records": [{"path": r["path"], "dir": r["dir"], "entries": [e[:3] for e in r["entries"]]} for r in g["records"]]}
+                         for g in o["written"]]
     return c
 
 
@@ -512,7 +563,7 @@ def first_difference(scn, impl_obs, model_obs):
     for i, (st, a, b) in enumerate(zip(scn["steps"], impl_obs, model_obs)):
         if b is None or "unsupported" in b:
             continue
-        ca, cb = comparable(a, st["op"]), comparable(b, st["op"])
+        ca, cb = comparable(a, st["op"], st), comparable(b, st["op"], st)
         if ca != cb:
             return i, ca, cb
     return None
